@@ -108,7 +108,8 @@ Inductive pad :=
 | PDollar (n : nat) (txt : string) (m : nat)    (* n+1 blanks, $txt, line break, 5+m blanks *)
 | PDollarEnd (n : nat) (txt : string)           (* n+1 blanks, $txt  (end of the card) *)
 | PComment (n : nat) (cs : list cline) (m : nat) (* n blanks, line break, comment lines, 5+m blanks *)
-| PAmp (n m : nat).                             (* n+1 blanks, &, line break, m blanks *)
+| PAmp (n m : nat)                              (* n+1 blanks, &, line break, m blanks *)
+| PLead (c : cline) (cs : list cline) (m : nat). (* in front of a card: comment lines, then m <= 4 blanks *)
 
 Fixpoint tabs (n : nat) : string := match n with O => "" | S k => String (ascii_of_nat 9) (tabs k) end.
 Definition sp_tok (s : string) : list token :=
@@ -137,6 +138,7 @@ Definition pad_toks (p : pad) : list token :=
                          :: comment_rest (cline_next b) r (spaces (5 + m))
       end
   | PAmp n m => [("SPACE", spaces (S n)); ("&", "&"); ("SPACE", nl ++ spaces m)]
+  | PLead (ind, b) cs m => sp_tok (spaces ind) ++ cline_tok b :: comment_rest (cline_next b) cs (spaces m)
   end.
 Definition opad_toks (p : option pad) : list token := match p with Some q => pad_toks q | None => [] end.
 
@@ -400,10 +402,14 @@ Definition ddata_ok (d : ddata) : bool :=
   | DParts p ps => forallb (fun q => dpart_ok (fst q)) (p :: ps)
   | DOptNums o _ l => mem_str o core_dist_options && nlist_ok l
   end.
-Record dparam := mkDParam { dp_key : string; dp_sep : sepshape; dp_val : nlist }.
+Inductive dpval := DPNums (l : nlist) | DPWord (w : string) (p : option pad).   (* seed=5 | geom=xyz *)
+Record dparam := mkDParam { dp_key : string; dp_sep : sepshape; dp_val : dpval }.
+Definition dpval_toks (v : dpval) : list token :=
+  match v with DPNums l => nlist_toks l | DPWord w p => ("TEXT", w) :: opad_toks p end.
 Definition dparam_toks (p : dparam) : list token :=
-  (word_class (dp_key p), dp_key p) :: sep_toks (dp_sep p) ++ nlist_toks (dp_val p).
-Definition dparam_ok (p : dparam) : bool := nlist_ok (dp_val p).
+  (word_class (dp_key p), dp_key p) :: sep_toks (dp_sep p) ++ dpval_toks (dp_val p).
+Definition dparam_ok (p : dparam) : bool :=
+  match dp_val p with DPNums l => nlist_ok l | DPWord _ _ => true end.
 
 Record datacard := mkData {
   dc_lead : option pad; dc_cls : dcls; dc_pad : option pad; dc_kw : option (string * pad);
@@ -797,6 +803,8 @@ Definition step (st : option (list val)) (w : string) : option (list val) :=
                              | Some a, Some b, Some l => Some (VP (PComment a l b) :: stack) | _, _, _ => None end
     | ["am"; n; m], _ => match parse_nat n, parse_nat m with
                          | Some a, Some b => Some (VP (PAmp a b) :: stack) | _, _ => None end
+    | ["ld"; m; cs], _ => match parse_nat m, parse_clines cs with
+                          | Some b, Some (c :: l) => Some (VP (PLead c l b) :: stack) | _, _ => None end
     | ["some"], VP p :: s => Some (VOP (Some p) :: s)
     | ["none"], _ => Some (VOP None :: stack)
     | ["leaf"], VR r :: s => Some (VF (FLeaf r) :: s)
@@ -845,7 +853,9 @@ Definition step (st : option (list val)) (w : string) : option (list val) :=
     | ["dnums"], VL l :: s => Some (VDD (DNums l) :: s)
     | ["dparts"], VPTS ps :: VPT p :: s => Some (VDD (DParts p ps) :: s)
     | ["dopt"; o], VL l :: VP p :: s => Some (VDD (DOptNums (hex_decode o) p l) :: s)
-    | ["dp"; k], VL v :: VSep sp :: s => Some (VDP (mkDParam (hex_decode k) sp v) :: s)
+    | ["dp"; k], VL v :: VSep sp :: s => Some (VDP (mkDParam (hex_decode k) sp (DPNums v)) :: s)
+    | ["dpw"; k; w], VOP p :: VSep sp :: s =>
+        Some (VDP (mkDParam (hex_decode k) sp (DPWord (hex_decode w) p)) :: s)
     | ["dps0"], _ => Some (VDPS [] :: stack)
     | ["dpsadd"], VDP p :: VDPS l :: s => Some (VDPS (l ++ [p]) :: s)
     | ["data"; md; pfx; n; parts], VDPS ps :: VDD dd :: VKw k :: VOP p :: VOP lead :: s =>
